@@ -428,15 +428,18 @@ func ruleCloneSupersedes(c *Ctx) {
 			if !ok || f.calleeSym(call) != "pkg/vm.cloneIfStruct" || len(call.Args) != 1 {
 				return true
 			}
-			orig, ok := ast.Unparen(call.Args[0]).(*ast.Ident)
-			if !ok {
-				return true
-			}
+			origExpr := ast.Unparen(call.Args[0])
+			origText := types.ExprString(origExpr)
+			orig, _ := origExpr.(*ast.Ident)
 			flagID, _ := as.Lhs[1].(*ast.Ident)
-			if flagID == nil || flagID.Name == "_" {
-				return true // no swap in this function: the clone is counted afresh (referenced compound)
+			var oo, fo types.Object
+			if orig != nil {
+				oo = info.ObjectOf(orig)
 			}
-			oo, fo := info.ObjectOf(orig), info.ObjectOf(flagID)
+			if flagID != nil && flagID.Name != "_" {
+				fo = info.ObjectOf(flagID)
+			}
+			origName := origText
 			n++
 			idx++
 			key := fmt.Sprintf("%s.clone#%d", FuncKey(fd.Obj), idx)
@@ -467,13 +470,17 @@ func ruleCloneSupersedes(c *Ctx) {
 				if !strings.HasPrefix(cs, "pkg/vm.(*refCounter).") || len(rc.Args) != 1 {
 					return true
 				}
-				a, ok := ast.Unparen(rc.Args[0]).(*ast.Ident)
-				if !ok || info.ObjectOf(a) != oo {
+				argE := ast.Unparen(rc.Args[0])
+				same := types.ExprString(argE) == origText
+				if a, ok := argE.(*ast.Ident); ok && oo != nil {
+					same = info.ObjectOf(a) == oo
+				}
+				if !same {
 					return true
 				}
-				// allowed: Remove(x) directly under `if isStruct`
+				// allowed: Remove(x) directly under `if isStruct` (the swap itself)
 				allowed := false
-				if strings.HasSuffix(cs, ".Remove") {
+				if strings.HasSuffix(cs, ".Remove") && fo != nil {
 					ast.Inspect(scope, func(z ast.Node) bool {
 						is, ok := z.(*ast.IfStmt)
 						if !ok || !containsNode(is.Body, rc) {
@@ -491,7 +498,7 @@ func ruleCloneSupersedes(c *Ctx) {
 				return true
 			})
 			if len(bad) > 0 {
-				c.Fail(key, c.P.Pos(as.Pos()), fmt.Sprintf("%s: after `%s` was superseded by its clone the reference counter is still given the original at %s: the original (possibly held elsewhere) is released twice and the clone never", FuncKey(fd.Obj), orig.Name, strings.Join(bad, ", ")))
+				c.Fail(key, c.P.Pos(as.Pos()), fmt.Sprintf("%s: after `%s` was superseded by its clone the reference counter is still given the original at %s: the clone that is actually stored is never counted (or the original, possibly held elsewhere, is released twice)", FuncKey(fd.Obj), origName, strings.Join(bad, ", ")))
 			} else {
 				c.OK(key, c.P.Pos(as.Pos()), "after the swap only the clone is reported to the reference counter")
 			}
